@@ -355,7 +355,7 @@ def plan(tier):
     q = tier == "quick"
     return [("accumulate", h_accumulate, {}, "dev", 1 if q else 2),
             ("ens2prob", h_ens2prob, {"thr": ordered_selections([1.0, 2.0, 5.0], 2) + [(5.0, 0.0, 2.0)] if q else ordered_selections([0.0, 1.0, 2.0, 5.0], 3),
-                          "qs": ordered_selections([0.0, 0.5, 1.0], 2) + [(0.25, 0.75), (0.75, 0.25)] if q else ordered_selections([0.0, 0.25, 0.5, 0.75, 1.0], 3)}, "dev", 1 if q else 2),
+                          "qs": ordered_selections([0.0, 0.5, 1.0], 2) + [(0.25, 0.75), (0.75, 0.25)] if q else ordered_selections([0.0, 0.25, 0.5, 0.75, 1.0], 2) + [(0.75, 0.25, 0.5), (0.0, 1.0, 0.5)]}, "dev", 1 if q else 2),
             ("expandverif", h_expand, {}, "dev", 1)]
 
 
